@@ -35,12 +35,51 @@ pub static NET: Mutex<NetState> = Mutex::new(NetState {
     events_seen: 0,
 });
 
+/// Lock / network action log of the thread that issues the API call (C12).
+pub struct ActLog {
+    pub on: bool,
+    pub thread: Option<std::thread::ThreadId>,
+    pub main: String,
+    pub bg_net: usize,
+}
+pub static ACT_LOG: Mutex<ActLog> = Mutex::new(ActLog { on: false, thread: None, main: String::new(), bg_net: 0 });
+
+fn log_lock_act(config: char, updater: char, id: hooks::LockId) {
+    let mut l = ACT_LOG.lock().unwrap();
+    if l.on && l.thread == Some(std::thread::current().id()) {
+        l.main.push(match id { hooks::LockId::Config => config, hooks::LockId::Updater => updater });
+    }
+}
+fn before_lock_hook(id: hooks::LockId) { log_lock_act('A', 'T', id); }
+fn after_unlock_hook(id: hooks::LockId) { log_lock_act('R', 'U', id); }
+
+pub fn install_lock_hooks() {
+    hooks::set_before_lock_hook(Some(before_lock_hook));
+    hooks::set_after_unlock_hook(Some(after_unlock_hook));
+}
+
+fn act_log_start() {
+    let mut l = ACT_LOG.lock().unwrap();
+    l.on = true;
+    l.thread = Some(std::thread::current().id());
+    l.main.clear();
+    l.bg_net = 0;
+}
+fn act_log_pause() { ACT_LOG.lock().unwrap().on = false; }
+fn act_log_resume() { ACT_LOG.lock().unwrap().on = true; }
+
 /// C12 oracle: network callbacks entered while the calling thread held the config/state lock.
 pub static NET_UNDER_LOCK: AtomicUsize = AtomicUsize::new(0);
 /// Total network callbacks observed.
 pub static NET_CALLS: AtomicU64 = AtomicU64::new(0);
 
 fn note_net_call() {
+    {
+        let mut l = ACT_LOG.lock().unwrap();
+        if l.on {
+            if l.thread == Some(std::thread::current().id()) { l.main.push('N'); } else { l.bg_net += 1; }
+        }
+    }
     NET_CALLS.fetch_add(1, Ordering::SeqCst);
     if hooks::config_lock_depth() > 0 {
         NET_UNDER_LOCK.fetch_add(1, Ordering::SeqCst);
@@ -403,6 +442,7 @@ pub fn classify_update_message(status: i32, msg: &str) -> String {
 impl Runner {
     pub fn new() -> Runner {
         hooks::reset_config();
+        install_lock_hooks();
         let dirs = Dirs::new();
         Runner { dirs, pj_hist: vec![], sj_hist: vec![], pj_ok: vec![], sj_ok: vec![], last_obs: None, inited: false }
     }
@@ -432,6 +472,7 @@ impl Runner {
             st.event_results.clear();
             st.events_seen = 0;
         }
+        act_log_start();
         let ret = match op {
             Op::Init { version, dirs, libs, yaml } => {
                 let st_dir = cstr(&self.dirs.storage(*dirs).display().to_string());
@@ -451,12 +492,16 @@ impl Runner {
                 let y = cstr(&yaml_text(yaml));
                 let ok = capi::shorebird_init(&params, cbs, y.as_ptr());
                 // `true` also when this init failed after configuring (FailedToCleanUpFailedPatch)
+                act_log_pause();
                 self.inited = install_net_hooks();
+                act_log_resume();
                 if ok { "b1".to_string() } else { "b0".to_string() }
             }
             Op::Restart => {
                 self.inited = false;
+                act_log_pause();
                 hooks::reset_config();
+                act_log_resume();
                 "u".to_string()
             }
             Op::Start => {
@@ -525,6 +570,7 @@ impl Runner {
             }
         };
         drain_bg_threads();
+        act_log_pause();
         ret
     }
 
@@ -593,7 +639,8 @@ impl Runner {
         self.sj_hist.push(std::fs::read(st.join("state.json")).ok());
         self.pj_ok.push(matches!(pj, JFile::Ok(_)));
         self.sj_ok.push(matches!(sj, JFile::Ok(_)));
-        let obs = Obs { ret, net, sj, pj, pd };
+        let (la, lb) = { let l = ACT_LOG.lock().unwrap(); (l.main.clone(), l.bg_net) };
+        let obs = Obs { ret, net, sj, pj, pd, la, lb };
         self.last_obs = Some(obs.clone());
         obs
     }
